@@ -324,6 +324,61 @@ theorem resubmit_leaves_no_previous_exit (e : Engine M) (r : Nat) (isStop : Bool
       · exact brokerSubmit_ext _ _ _ _
   exact stays_not_active h2 id (by omega) h1
 
+/-- ONCE THE POSITION IS CLOSED NOTHING STAYS ACTIVE: `_execute_cancel` (run when a position closes and when resting
+    entries are given up) leaves no order of the symbol's registry active — whatever the other routes do when the
+    event is broadcast to them. -/
+theorem execute_cancel_leaves_nothing_active (e : Engine M) (r : Nat) (id : Nat)
+    (hid : id < e.w.orders.length) (hmem : id ∈ Acc.getD e.w.active (routeOf e r).sym) :
+    (orderOf (executeCancel e r) id).status ≠ .active ∨ (executeCancel e r).err.isSome := by
+  unfold executeCancel
+  dsimp only
+  split
+  · right; assumption
+  · split
+    · right
+      unfold fail; split
+      · assumption
+      · rfl
+    · left
+      -- the cancellation loop
+      have phase1 : ∀ (l : List Nat) (e0 : Engine M), e.w.orders.length ≤ e0.w.orders.length →
+          (id ∈ l ∨ (orderOf e0 id).status ≠ .active) →
+          (orderOf (l.foldl (fun (e : Engine M) id => cancelOrder e id) e0) id).status ≠ .active := by
+        intro l
+        induction l with
+        | nil =>
+          intro e0 _ h
+          rcases h with h | h
+          · cases h
+          · exact h
+        | cons x xs ih =>
+          intro e0 hl h
+          simp only [List.foldl_cons]
+          have hid0 : id < e0.w.orders.length := by omega
+          have hext := cancelOrder_ext e0 x
+          apply ih _ (Nat.le_trans hl hext.len)
+          by_cases hx : x = id
+          · right; subst hx; exact cancelOrder_not_active e0 x hid0
+          · rcases h with h | h
+            · rcases List.mem_cons.mp h with h1 | h1
+              · exact absurd h1.symm hx
+              · exact Or.inl h1
+            · exact Or.inr (stays_not_active hext id hid0 h)
+      have h1 := phase1 (Acc.getD e.w.active (routeOf e r).sym) e (Nat.le_refl _) (Or.inl hmem)
+      have hlen1 : e.w.orders.length ≤ ((Acc.getD e.w.active (routeOf e r).sym).foldl (fun (e : Engine M) id => cancelOrder e id) e).w.orders.length :=
+        (foldl_ext _ (fun e' x => cancelOrder_ext e' x) _ e).len
+      revert h1 hlen1
+      generalize (Acc.getD e.w.active (routeOf e r).sym).foldl (fun (e : Engine M) id => cancelOrder e id) e = e1
+      intro h1 hlen1
+      -- storage reset, strategy reset, broadcast, log: none revives an order
+      have h2 : EExt e1 (logE (broadcast (resetStrategy { e1 with storage := upd e1.storage (routeOf e r).sym (fun _ => []) } r) r)
+          (Event.hook r "on_cancel" (stratOf e r).index (priceOf e r) 0 (posOf e (routeOf e r).sym).pnl)) := by
+        apply ext_then (fun x => logE x _) (fun x => logE_ext x _)
+        apply ext_then (fun x => broadcast x r) (fun x => broadcast_ext x r)
+        apply ext_then (fun x => resetStrategy x r) (fun x => resetStrategy_ext x r)
+        exact EExt.of_w rfl
+      exact stays_not_active h2 id (by omega) h1
+
 end reconcile
 
 end C10
